@@ -8,6 +8,8 @@ Driver `c05`: the reaction functions of `Spec.AgreementSync` (what an honest nod
     next <period> <bottom> <prop> <staged v|-> <avail 0|1>           →  next <v|bot>           (`nextValue`, `issueNextVote`)
     fast <period> <bottom> <prop> <staged v|-> <avail 0|1>           →  fast <late|redo|down> <v|bot>   (`fastVote`, `issueFastVote`)
     rebroadcast <go step> <period>                                   →  rebroadcast <0|1>      (`partitioned`)
+    bfresh <player round> <player period> <LastConcluding> <player step> <bundle round> <bundle period> <bundle step>  →  bfresh <0|1>
+                                                                        (`bundleFresh`; the model ignores LastConcluding and the player step)
     deadline-increase <period>                                       →  ok                     (implementation monitor, not a model question)
 
 `bottom/prop` = the cache of the previous period as the node reads it, `staged` = the value with a soft quorum in the period,
@@ -45,6 +47,8 @@ def handle (line : String) : String :=
         | .next 252 => "down"
         | _ => "?"
       s!"fast {s} {showV "bot" r.2}"
+  | ["bfresh", pr, pp, _lc, _ps, br, bp, bs] =>
+      "bfresh " ++ (if bundleFresh (nat! pr) (nat! pp) (nat! br) (nat! bp) (nat! bs) then "1" else "0")
   | ["deadline-increase", _] => "ok"        -- a monitor on the implementation alone: the harness reports `ok` or the decrease
   | ["rebroadcast", s, p] => "rebroadcast " ++ (if partitioned (nat! s - 3) (nat! p) then "1" else "0")
   | _ => "bad-op"
